@@ -36,11 +36,23 @@ func aF(name string, v int) Attr {
 func aFs(name string, v []int) Attr { return Attr{name, "fs", rawJ(v)} }
 func aS(name string, v string) Attr { return Attr{name, "s", rawJ(v)} }
 
+// largeExtents: extents around the sizes at which vectorised / blocked code paths usually switch
+var largeExtents = []int{7, 8, 9, 15, 16, 17, 31, 32, 33, 64, 65}
+
 func rshape(r *rand.Rand, minRank, maxRank, maxExt int) []int {
 	n := minRank + r.Intn(maxRank-minRank+1)
 	s := make([]int, n)
 	for i := range s {
 		s[i] = 1 + r.Intn(maxExt)
+	}
+	// now and then one long axis (the tensor stays below 2048 elements)
+	if n > 0 && maxExt >= 4 && r.Intn(8) == 0 {
+		i := r.Intn(n)
+		old := s[i]
+		s[i] = largeExtents[r.Intn(len(largeExtents))]
+		if size(s) > 2048 {
+			s[i] = old
+		}
 	}
 	return s
 }
